@@ -60,6 +60,9 @@ def texts(draw, enc):
     laid = draw(G.script(1, 3, comments=10))
     laid = sprinkle(laid, enc, draw)
     text = G.assemble(laid)[0]
+    if enc in ('utf-8', 'utf-16') and draw(st.integers(0, 5)) == 0:
+        # characters that decoders like to treat specially: byte-order mark, zero-width space, NUL, line/paragraph separators
+        text = draw(st.sampled_from(['\ufeff', '\ufeff\ufeff', '\u200b', '\x00', '\u2028', '\ufffe', '\x1a'])) + text
     try:
         text.encode(enc)
     except UnicodeEncodeError:
@@ -234,12 +237,17 @@ def check_cli(case):
         else:
             if fo:
                 with open(fo, 'rb') as f:
-                    got = f.read().decode(enc)
+                    raw = f.read()
+                try:
+                    got = raw.decode(enc)
+                except UnicodeDecodeError:
+                    got = None
+                    res.fail('cli-output', 'outfile-not-in-encoding', 'argv %r: the output file is not valid %s' % (argv[1:], enc))
                 if out != '':
                     res.fail('cli-output', 'stdout-with-outfile', 'stdout not empty although -o was given')
             else:
                 got = out
-            if got != expected:
+            if got is not None and got != expected:
                 i = next((i for i, (a, b) in enumerate(zip(got, expected)) if a != b), min(len(got), len(expected)))
                 res.fail('cli-output', ('file' if fo else 'stdout') + ':' + ('infile' if case['infile'] else 'stdin'),
                          'argv %r encoding %s: CLI output differs from format() at %d: %r vs %r' % (argv[1:], enc, i, got[max(0, i - 20):i + 20], expected[max(0, i - 20):i + 20]))
